@@ -55,6 +55,58 @@ pub fn run(seed: u64, tier: &str) -> String {
             reps.push(cand);
         }
     }
+    // wrap-around windows of "multiply the representation by a small constant, then reduce" routines:
+    // representations m with k*m next to a multiple of 2^255, 2^256, q, 2^256 - q or q - 2^255 (k = 1..8)
+    {
+        fn mul_small(a: &[u64; 5], k: u64) -> [u64; 5] {
+            let mut r = [0u64; 5];
+            let mut c: u128 = 0;
+            for i in 0..5 { let t = (a[i] as u128) * (k as u128) + c; r[i] = t as u64; c = t >> 64; }
+            r
+        }
+        fn div_small(a: &[u64; 5], k: u64) -> [u64; 5] {
+            let mut r = [0u64; 5];
+            let mut rem: u128 = 0;
+            for i in (0..5).rev() { let t = (rem << 64) | (a[i] as u128); r[i] = (t / (k as u128)) as u64; rem = t % (k as u128); }
+            r
+        }
+        fn add_signed(a: &[u64; 5], d: i64) -> Option<[u64; 5]> {
+            let mut r = *a;
+            if d >= 0 {
+                let mut c = d as u128;
+                for i in 0..5 { let t = (r[i] as u128) + c; r[i] = t as u64; c = t >> 64; }
+                if c != 0 { return None; }
+            } else {
+                let mut b = (-d) as u64;
+                for i in 0..5 { let (t, o) = r[i].overflowing_sub(b); r[i] = t; b = o as u64; if b == 0 { break; } }
+                if b != 0 { return None; }
+            }
+            Some(r)
+        }
+        let ql = q.0;
+        let q5 = [ql[0], ql[1], ql[2], ql[3], 0u64];
+        let p255 = [0, 0, 0, 1u64 << 63, 0u64];
+        let p256 = [0, 0, 0, 0, 1u64];
+        let mut two256_minus_q = [0u64; 5];
+        { let mut b = 0u64; for i in 0..5 { let (t, o1) = p256[i].overflowing_sub(q5[i]); let (t2, o2) = t.overflowing_sub(b); two256_minus_q[i] = t2; b = (o1 || o2) as u64; } }
+        let mut q_minus_255 = q5; q_minus_255[3] &= (1u64 << 63) - 1;
+        let bases = [p255, p256, q5, two256_minus_q, q_minus_255];
+        for k in 1u64..=8 {
+            for base in bases.iter() {
+                for i in 1u64..=(k + 1) {
+                    let m0 = div_small(&mul_small(base, i), k);
+                    for d in -2i64..=2 {
+                        if let Some(m) = add_signed(&m0, d) {
+                            if m[4] == 0 {
+                                let cand = BigInt::<4>::new([m[0], m[1], m[2], m[3]]);
+                                if cand < q { reps.push(cand); }
+                            }
+                        }
+                    }
+                }
+            }
+        }
+    }
     for r in reps {
         xs.push(Fq::new_unchecked(r));
     }
